@@ -14,15 +14,20 @@ AMP_LIMIT = 1e-10
 CORPUS = os.path.join(os.path.dirname(os.path.dirname(os.path.dirname(os.path.abspath(__file__)))), "corpus", "C09")
 
 
-def make_history(rng, d, n_steps, max_dt):
+FIXED_CONTROL, FIXED_READING = 0.25, 0.5
+
+
+def make_history(rng, d, n_steps, max_dt, fixed_inputs=False):
+    """fixed_inputs: every prediction uses the same control and every update the same reading values, so that the compiled
+    C++ filter can be driven through exactly the same history (its driver holds one control and one reading per sensor)"""
     ops = []
     for i in range(n_steps):
         if d["sensors"] and rng.random() < 0.25:
             k = rng.choice(sorted(d["sensors"]))
-            ops.append(["u", k, {r: M.rnd_point(rng) for r in d["sensors"][k]}])
+            ops.append(["u", k, {r: (FIXED_READING if fixed_inputs else M.rnd_point(rng)) for r in d["sensors"][k]}])
         else:
             dt = rng.choice([max_dt, max_dt / 2, max_dt * rng.random() + 1e-6, max_dt / 8])
-            ops.append(["p", dt, {u: M.rnd_point(rng) for u in d["control"]}])
+            ops.append(["p", dt, {u: (FIXED_CONTROL if fixed_inputs else M.rnd_point(rng)) for u in d["control"]}])
     return ops
 
 
@@ -44,8 +49,8 @@ def cpp_history(ctx, jobs, res, dist):
             ops.append("P " + float(op[1]).hex() if op[0] == "p" else f"S {keys.index(op[1])}")
             if (i + 1) in marks:
                 ops.append("R")
-        point = {"state": job["x0"], "P": job["P0"], "control": {u: 0.25 for u in d["control"]},
-                 "readings": {k: {rd: 0.5 for rd in d["sensors"][k]} for k in keys}}
+        point = {"state": job["x0"], "P": job["P0"], "control": {u: FIXED_CONTROL for u in d["control"]},
+                 "readings": {k: {rd: FIXED_READING for rd in d["sensors"][k]} for k in keys}}
         cjobs.append({"defn": d, "cse": job["cse"], "k": None, "max_dt": job["max_dt"], "decl": job.get("decl"), "point": point,
                       "histories": [], "byhand_ops": ops})
         keep.append((job, r))
@@ -101,6 +106,8 @@ def run(ctx: Ctx):
     for i in range(n_models):
         if i == 0:
             d = M.mass_zva_definition()
+        elif i == 1:
+            d = M.mass_zva_pitot_definition()       # non-linear sensor: same inputs on both sides (fixed_inputs)
         else:
             d = M.gen_linear_definition(ctx.rng, singular=(i % 2 == 1))
         max_dt = ctx.rng.choice([0.1, 0.05, 0.01])
@@ -110,7 +117,7 @@ def run(ctx: Ctx):
             # singular but valid starting covariance (rank one)
             v = [ctx.rng.randint(-2, 2) / 2.0 for _ in range(n)]
             P0 = [[v[a] * v[b] for b in range(n)] for a in range(n)]
-        jobs.append({"defn": d, "cse": bool(i % 2), "max_dt": max_dt, "ops": make_history(ctx.rng, d, n_steps, max_dt),
+        jobs.append({"defn": d, "cse": bool(i % 2), "max_dt": max_dt, "ops": make_history(ctx.rng, d, n_steps, max_dt, fixed_inputs=(i == 1)),
                      "P0": P0, "x0": {s: M.rnd_point(ctx.rng) for s in d["state"]},
                      "decl": {"container": "set", "perm_seed": i}, "amp_limit": AMP_LIMIT})
     n_gen = len(jobs)
